@@ -573,7 +573,7 @@ func lengthFamily(out *sx.Out, rng *sx.Rng, thorough bool) {
 	}
 	// fn 2: sequential
 	for i, lf := range fam {
-		if quickRace && i%4 != 0 && lf.n != 255 {
+		if quickRace && !(i == 0 || lf.plain && lf.n >= 254 && lf.n <= 257) {
 			continue
 		}
 		if lf.huge {
@@ -610,7 +610,7 @@ func lengthFamily(out *sx.Out, rng *sx.Rng, thorough bool) {
 	}
 	for rep := 0; rep < reps; rep++ {
 		for i, lf := range fam {
-			if quickRace && (lf.huge || (i%4 != 0 && lf.n != 255)) {
+			if quickRace && !(i == 0 || lf.plain && lf.n >= 254 && lf.n <= 257 || i%8 == 7) {
 				continue
 			}
 			if lf.huge {
